@@ -29,6 +29,12 @@ type meta struct {
 
 	creation int64 // used for the meta process Uptime method only
 	state    int32
+
+	// termination reason handed over by start() to the goroutine that
+	// is handling the mailbox (see terminated)
+	reason error
+	// set by the one that runs the Terminate callback (see finalize)
+	finalized int32
 }
 
 func (m *meta) ID() gen.Alias {
@@ -102,14 +108,7 @@ func (m *meta) start() {
 				pc, fn, line, _ := runtime.Caller(2)
 				m.log.Panic("meta process %s terminated - %#v at %s[%s:%d]", m.id,
 					rcv, runtime.FuncForPC(pc).Name(), fn, line)
-				old := atomic.SwapInt32(&m.state, int32(gen.MetaStateTerminated))
-				if old != int32(gen.MetaStateTerminated) {
-					m.p.node.aliases.Delete(m.id)
-					atomic.StoreInt32(&m.state, int32(gen.MetaStateTerminated))
-					reason := gen.TerminateReasonPanic
-					m.p.node.RouteTerminateAlias(m.id, reason)
-					m.behavior.Terminate(reason)
-				}
+				m.terminated(gen.TerminateReasonPanic)
 			}
 		}()
 	}
@@ -124,15 +123,37 @@ func (m *meta) start() {
 
 	reason := m.behavior.Start()
 	// meta process terminated
-	old := atomic.SwapInt32(&m.state, int32(gen.MetaStateTerminated))
-	if old != int32(gen.MetaStateTerminated) {
-		m.p.node.aliases.Delete(m.id)
-		if reason == nil {
-			reason = gen.TerminateReasonNormal
-		}
-		m.p.node.RouteTerminateAlias(m.id, reason)
-		m.behavior.Terminate(reason)
+	if reason == nil {
+		reason = gen.TerminateReasonNormal
 	}
+	m.terminated(reason)
+}
+
+// terminated is invoked by start() when the Start callback has returned (or panicked).
+// If the mailbox goroutine is running a callback right now, the termination is handed
+// over to it (it finishes the termination right after that callback, see handle),
+// so the Terminate callback never runs concurrently with HandleMessage/HandleCall.
+func (m *meta) terminated(reason error) {
+	m.reason = reason
+	old := atomic.SwapInt32(&m.state, int32(gen.MetaStateTerminated))
+	if old != int32(gen.MetaStateSleep) {
+		// terminated already, or handed over to the mailbox goroutine
+		return
+	}
+	m.finalize(reason)
+}
+
+// finalize releases the alias, notifies the links/monitors and runs the Terminate
+// callback. It is invoked either by the mailbox goroutine or, if there is none,
+// by start(); a second invocation (a panic in the Terminate callback brings the
+// caller's recover handler here again) does nothing.
+func (m *meta) finalize(reason error) {
+	if atomic.CompareAndSwapInt32(&m.finalized, 0, 1) == false {
+		return
+	}
+	m.p.node.aliases.Delete(m.id)
+	m.p.node.RouteTerminateAlias(m.id, reason)
+	m.behavior.Terminate(reason)
 }
 
 func (m *meta) handle() {
@@ -154,13 +175,11 @@ func (m *meta) handle() {
 					m.log.Panic("meta process %s terminated - %#v at %s[%s:%d]", m.id,
 						rcv, runtime.FuncForPC(pc).Name(), fn, line)
 
-					old := atomic.SwapInt32(&m.state, int32(gen.MetaStateTerminated))
-					if old != int32(gen.MetaStateTerminated) {
-						m.p.node.aliases.Delete(m.id)
-						reason = gen.TerminateReasonPanic
-						m.p.node.RouteTerminateAlias(m.id, reason)
-						m.behavior.Terminate(reason)
-					}
+					// this goroutine is the one that finishes the termination
+					// (start() hands it over if the state was 'running')
+					atomic.StoreInt32(&m.state, int32(gen.MetaStateTerminated))
+					reason = gen.TerminateReasonPanic
+					m.finalize(reason)
 				}
 			}()
 		}
@@ -243,18 +262,17 @@ func (m *meta) handle() {
 				continue
 			}
 
-			// terminated
-			old := atomic.SwapInt32(&m.state, int32(gen.MetaStateTerminated))
-			if old != int32(gen.MetaStateTerminated) {
-				m.p.node.aliases.Delete(m.id)
-				m.p.node.RouteTerminateAlias(m.id, reason)
-				m.behavior.Terminate(reason)
-			}
+			// terminated. this goroutine is the one that finishes the termination
+			// (start() hands it over if the state was 'running')
+			atomic.StoreInt32(&m.state, int32(gen.MetaStateTerminated))
+			m.finalize(reason)
 			return
 		}
 
 		if atomic.CompareAndSwapInt32(&m.state, int32(gen.MetaStateRunning), int32(gen.MetaStateSleep)) == false {
-			// terminated. seems the main loop is stopped. do nothing.
+			// terminated by start() while this goroutine was running a callback.
+			// the termination has been handed over to this goroutine. finish it
+			m.finalize(m.reason)
 			return
 		}
 
